@@ -1,7 +1,13 @@
-// Package fakews stands in for gorilla/websocket in the wsStream model.
+// Package fakews stands in for github.com/gorilla/websocket in the model of
+// transport.wsStream: a scripted message-oriented connection that reproduces
+// gorilla's documented reader contract (a message reader returns n>0,nil ...
+// then 0,io.EOF; NextReader fails with *CloseError once the peer closed;
+// a message above the read limit fails with ErrReadLimit) and records written
+// messages. It is rewritten onto the controlled scheduler like harness code.
 package fakews
 
 import (
+	"errors"
 	"io"
 	"net"
 	"time"
@@ -10,33 +16,117 @@ import (
 const BinaryMessage = 2
 const TextMessage = 1
 
+var ErrReadLimit = errors.New("websocket: read limit exceeded")
+var ErrCloseSent = errors.New("websocket: close sent")
+var errInjected = errors.New("fakews: injected failure")
+var errTimeout = errors.New("fakews: i/o timeout")
+
 type CloseError struct{ Code int }
 
-func (e *CloseError) Error() string { return "close" }
+func (e *CloseError) Error() string { return "websocket: close" }
 
-type Conn struct {
-	In  [][]byte // scripted incoming messages
-	Out [][]byte
+// Msg is one incoming websocket message.
+type Msg struct {
+	Type int
+	Data []byte
 }
 
-type rd struct{ b []byte }
+type Conn struct {
+	in       chan Msg // scripted incoming messages
+	Out      [][]byte // messages written by the code under test
+	closed   bool
+	closedCh chan struct{}
+	expired  chan struct{}
+	isExpired bool
+	limit    int64
+	MaxRead  int // a message reader hands out at most this many bytes per Read (0 = as much as fits)
+
+	Deadlines  []time.Time
+	CloseCalls int
+	// fault switches: fail the n-th call from now (1 = next)
+	FailNextWriter int
+	FailWrite      int
+	FailWriterClose int
+	FailNextReader int
+	FailDeadline   int
+	FailClose      int
+}
+
+func New(capacity int) *Conn {
+	return &Conn{in: make(chan Msg, capacity), closedCh: make(chan struct{}), expired: make(chan struct{})}
+}
+
+// Feed queues an incoming binary message.
+func (c *Conn) Feed(data []byte) { c.in <- Msg{BinaryMessage, append([]byte{}, data...)} }
+
+// FeedMsg queues an incoming message of any type.
+func (c *Conn) FeedMsg(m Msg) { c.in <- m }
+
+// PeerClose: the peer sends a close frame after what is queued.
+func (c *Conn) PeerClose() { c.in <- Msg{Type: -1} }
+
+// ExpireReadDeadline lets a blocked NextReader fail with a timeout.
+func (c *Conn) ExpireReadDeadline() {
+	if !c.isExpired {
+		c.isExpired = true
+		close(c.expired)
+	}
+}
+
+func hit(n *int) bool {
+	if *n > 0 {
+		*n--
+		if *n == 0 {
+			return true
+		}
+	}
+	return false
+}
+
+type rd struct {
+	c *Conn
+	b []byte
+}
 
 func (r *rd) Read(p []byte) (int, error) {
 	if len(r.b) == 0 {
 		return 0, io.EOF
 	}
-	n := copy(p, r.b)
+	n := len(p)
+	if r.c.MaxRead > 0 && n > r.c.MaxRead {
+		n = r.c.MaxRead
+	}
+	n = copy(p[:n], r.b)
 	r.b = r.b[n:]
 	return n, nil
 }
 
 func (c *Conn) NextReader() (int, io.Reader, error) {
-	if len(c.In) == 0 {
+	if hit(&c.FailNextReader) {
+		return 0, nil, errInjected
+	}
+	if c.closed {
+		return 0, nil, errors.New("use of closed network connection")
+	}
+	var m Msg
+	select {
+	case m = <-c.in:
+	default:
+		select {
+		case m = <-c.in:
+		case <-c.closedCh:
+			return 0, nil, errors.New("use of closed network connection")
+		case <-c.expired:
+			return 0, nil, errTimeout
+		}
+	}
+	if m.Type == -1 {
 		return 0, nil, &CloseError{1000}
 	}
-	m := c.In[0]
-	c.In = c.In[1:]
-	return BinaryMessage, &rd{m}, nil
+	if c.limit > 0 && int64(len(m.Data)) > c.limit {
+		return 0, nil, ErrReadLimit
+	}
+	return m.Type, &rd{c, m.Data}, nil
 }
 
 type wr struct {
@@ -44,11 +134,57 @@ type wr struct {
 	b []byte
 }
 
-func (w *wr) Write(p []byte) (int, error) { w.b = append(w.b, p...); return len(p), nil }
-func (w *wr) Close() error                { w.c.Out = append(w.c.Out, w.b); return nil }
+func (w *wr) Write(p []byte) (int, error) {
+	if hit(&w.c.FailWrite) {
+		return 0, errInjected
+	}
+	w.b = append(w.b, p...)
+	return len(p), nil
+}
 
-func (c *Conn) NextWriter(int) (io.WriteCloser, error) { return &wr{c: c}, nil }
-func (c *Conn) Close() error                           { return nil }
-func (c *Conn) SetReadDeadline(time.Time) error        { return nil }
-func (c *Conn) LocalAddr() net.Addr                    { return nil }
-func (c *Conn) RemoteAddr() net.Addr                   { return nil }
+func (w *wr) Close() error {
+	if hit(&w.c.FailWriterClose) {
+		return errInjected
+	}
+	if w.c.closed {
+		return ErrCloseSent
+	}
+	w.c.Out = append(w.c.Out, w.b)
+	return nil
+}
+
+func (c *Conn) NextWriter(int) (io.WriteCloser, error) {
+	if hit(&c.FailNextWriter) {
+		return nil, errInjected
+	}
+	if c.closed {
+		return nil, ErrCloseSent
+	}
+	return &wr{c: c}, nil
+}
+
+func (c *Conn) Close() error {
+	c.CloseCalls++
+	if !c.closed {
+		c.closed = true
+		close(c.closedCh)
+	}
+	if hit(&c.FailClose) {
+		return errInjected
+	}
+	return nil
+}
+
+func (c *Conn) Closed() bool { return c.closed }
+
+func (c *Conn) SetReadDeadline(t time.Time) error {
+	if hit(&c.FailDeadline) {
+		return errInjected
+	}
+	c.Deadlines = append(c.Deadlines, t)
+	return nil
+}
+
+func (c *Conn) SetReadLimit(limit int64) { c.limit = limit }
+func (c *Conn) LocalAddr() net.Addr      { return nil }
+func (c *Conn) RemoteAddr() net.Addr     { return nil }
